@@ -87,6 +87,9 @@ class MgrCoroContract(MgrContract):
             ('r3-switch-decisions-stay', FA([k], z3.Implies(PyV.is_case(m0.S.SW.get(k, z3.BoolVal(False))),
                                                             PyV.is_case(m1.S.SW.get(k, z3.BoolVal(False)))),
                                             patterns=[m1.S.SW.data.at(k), m0.S.SW.data.at(k)])),
+            # r1: the only structural flag the engine changes is is_oneof_child, and only from set to cleared
+            ('r1-candidates-only-get-unmarked', FA([k], z3.Implies(z3.Not(m0.G.is_child(k)), z3.Not(m1.G.is_child(k))),
+                                                   patterns=[m1.G.na('is_oneof_child', k), m0.G.na('is_oneof_child', k)])),
             # INV1: no result is ever stored for a synthetic switch node (guarantee side: every set_node_result site)
             ('INV1-no-result-for-switch-nodes', FA([k], z3.Implies(m1.G.is_switch(k), z3.Not(m1.S.R.data.has(k))),
                                                    patterns=[m1.S.R.data.has(k)])),
@@ -878,7 +881,8 @@ from pyvc.contract import REGISTRY                        # noqa: E402
 
 def base_requires(m):
     return [('no-result-for-switch-nodes (INV1)', inv_no_result_for_switch(m)),
-            ('input-kwargs-do-not-use-engine-names', input_kwargs_wf(m))]
+            ('input-kwargs-do-not-use-engine-names', input_kwargs_wf(m)),
+            ('the-input-node-is-no-one-of-candidate', z3.And(m.G.node(m.input), z3.Not(m.G.is_child(m.input))))]
 
 
 def graph_wf(m):
@@ -1104,4 +1108,272 @@ class M_run_dag(CoroBase):
         out.append(('returns-the-destination-value|C11', len(gets) == 1 and z3.simplify(z3.And(
             T(gets[0].a.node_id, st) == sub.dest, T(value, st) == T(gets[0].res, st), B(gets[0].a.with_hidden)))))
         out.append(('launches-nothing-after-the-loop|C04', not spawns(tail)))
+        return out
+
+
+# ======================================================================================
+# _run_switch  (C09, C02, C05)
+# ======================================================================================
+KEYERROR = LATTICE.codes['KeyError']
+LOOKUP = LATTICE.codes['LookupError']
+
+
+def dag_arg_view(it, eff):
+    """(ref, snapshot) of the dag object handed to a contracted _run_dag call / spawn"""
+    if eff.kind == 'call':
+        return eff.a.dag, eff.pre_call
+    c = REGISTRY.get(eff.coro.fn.key)
+    ca = c.bind(it, eff.coro.fn, eff.coro.self_val, CallArgs(eff.coro.args, eff.coro.kwargs, eff.coro.starmaps))
+    return ca.dag, eff.snap
+
+
+@contract
+class M_run_switch(CoroBase):
+    name = 'DAGRunConcurrentManager._run_switch'
+    returns = 'val'
+    yields = True
+    props = ('C09', 'C02', 'C05', 'C13', 'C10', 'C01')
+    doc = ('records the case whose label equals the decider\'s result and runs exactly the sub-pipeline input -> that '
+           'case (without case edges), in the enclosing one-of mode')
+
+    def setup(self, it):
+        st = it.st
+        m = new_manager(it)
+        d = new_subdag(it, m)
+        for ax in notif_axioms(MV(st.snapshot(), m)):
+            st.assume(ax)
+        st.ghost['notif_ax'] = True
+        return m, CallArgs([d, SymV(st.fresh_val('s'))])
+
+    def requires(self, it, pre, a):
+        m = self.mv(pre, a)
+        s = T(a.node_id, it.st)
+        return base_requires(m) + [('graph-well-formed', graph_wf(m)), ('switch-nodes-well-formed', switch_wf(m)),
+                                   ('is-a-switch-node', m.G.is_switch(s)),
+                                   ('input-node-in-graph', m.G.node(m.input)),
+                                   ('case-nodes-are-graph-nodes', True)]
+
+    def other_raises(self, it, pre, a):
+        return [ExcCase('unmatched-label', None, may=True)]
+
+    def trace(self, it, pre, post, a, outcome, value, effects):
+        st = it.st
+        m0 = self.mv(pre, a)
+        s = T(a.node_id, st)
+        sub = SubV(pre, a.dag)
+        adds = calls(effects, '_add_case_result')
+        runs = calls(effects, '._run_dag')
+        ys = [i for i, e in enumerate(effects) if e.kind == 'yield']
+        ok = len(adds) == 1 and z3.is_true(z3.simplify(T(adds[0].a.switch_node_id, st) == s))
+        out = [('selects-the-case-of-this-switch-once|C09', ok)]
+        if not ok:
+            return out
+        ad = adds[0]
+        out.append(('selection-happens-before-any-yield|C09', not [y for y in ys if y < effects.index(ad)]))
+        if ad.exc is not None:
+            # the decider's label matches no case
+            e = value.t if outcome == 'raise' else None
+            out.append(('unmatched-label-fails-the-run|C09', outcome == 'raise'))
+            if e is not None:
+                out.append(('unmatched-label-is-reported-by-a-proper-error-not-a-lookup-artefact|C09,C05',
+                            z3.Not(subcls(PyV.ecls(e), z3.IntVal(LOOKUP)))))
+                out.append(('a-failing-task-wakes-the-run|C02', notifies(it, effects, 'run')))
+            out.append(('unmatched-label-runs-no-case|C09', not runs))
+            return out
+        ok = len(runs) == 1
+        out.append(('runs-exactly-one-sub-pipeline|C09', ok))
+        if not ok:
+            return out
+        r = runs[0]
+        g, snap = dag_arg_view(it, r)
+        mr = self.mv(snap, a)
+        selected = PyV.cnode(mr.S.SW.get(s, z3.BoolVal(False)))
+        gv = SubV(snap, g) if snap.getf(g, 'g_kind') != 'view' else None
+        if gv is not None:
+            out += [
+                ('sub-pipeline-ends-at-the-selected-case|C09', gv.dest == selected),
+                ('sub-pipeline-starts-at-the-input-node|C09', gv.source == mr.input),
+                ('sub-pipeline-keeps-the-one-of-mode-of-the-scope|C10', z3.And(gv.is_oneof == sub.is_oneof, z3.Not(gv.is_recurrent))),
+                ('sub-pipeline-ignores-case-edges|C09', snap.getf(g, 'g_fedge') is not None),
+                ('no-yield-between-selection-and-building-the-sub-pipeline|C09',
+                 not [y for y in ys if effects.index(ad) < y < effects.index(r) and effects[y].label != r.fn]),
+            ]
+        # C09.d / C02: a consumer blocked on the switch reads SW[s]; it is woken by the selected case's runner —
+        # unless that case was already computed for somebody else, in which case nobody is left to wake it
+        x = z3.Const('swx', PyV)
+        out.append(('consumers-of-the-switch-are-woken-after-the-selection|C02,C09', FA([x], z3.Implies(
+            m0.G.edge(s, x), z3.Or(notifies(it, effects, x), z3.Not(mr.S.P.vis(selected)))), patterns=[m0.G.edge(s, x)])))
+        if r.exc is None:
+            out.append(('returns-the-sub-pipeline-result', outcome == 'return' and z3.simplify(T(value, st) == T(r.res, st))))
+        return out
+
+
+# ======================================================================================
+# _run_oneof  (C10, C02)
+# ======================================================================================
+@contract
+class M_run_oneof(CoroBase):
+    name = 'DAGRunConcurrentManager._run_oneof'
+    returns = 'none'
+    yields = True
+    props = ('C10', 'C02', 'C05', 'C13')
+    doc = ('tries the candidates in declared order, each only after the previous one was observed failed; the first '
+           'candidate whose sub-pipeline completes without error gives the head its value; if all fail the run (or the '
+           'enclosing candidate) fails with OneOfDoesNotHaveResultError')
+
+    def setup(self, it):
+        st = it.st
+        m = new_manager(it)
+        d = new_subdag(it, m)
+        for ax in notif_axioms(MV(st.snapshot(), m)):
+            st.assume(ax)
+        st.ghost['notif_ax'] = True
+        return m, CallArgs([d, SymV(st.fresh_val('h'))])
+
+    def cands(self, m, h):
+        from pyvc.libmodels2 import SEQ_AT, SEQ_LEN
+        v = m.G.na('oneof_nodes', h)
+        return (lambda i: SEQ_AT(v, i)), SEQ_LEN(v)
+
+    def requires(self, it, pre, a):
+        m = self.mv(pre, a)
+        h = T(a.node_id, it.st)
+        at, ln = self.cands(m, h)
+        i = z3.Int('ci')
+        return base_requires(m) + [('graph-well-formed', graph_wf(m)), ('switch-nodes-well-formed', switch_wf(m)),
+                                   ('is-a-one-of-head', z3.And(m.G.node(h), m.G.is_head(h), z3.Not(m.G.is_switch(h)))),
+                                   ('input-node-in-graph', m.G.node(m.input)),
+                                   ('candidates-are-graph-nodes', FA([i], z3.Implies(z3.And(i >= 0, i < ln), m.G.node(at(i)))))]
+
+    def other_raises(self, it, pre, a):
+        return [ExcCase('no-candidate-succeeded', 'OneOfDoesNotHaveResultError', may=True)]
+
+    def candidate_clauses(self, it, pre, a, effs, cand, adequacy=True):
+        """one candidate attempt: the effects from the loop head up to the verdict on this candidate"""
+        st = it.st
+        m0 = self.mv(pre, a)
+        h = T(a.node_id, st)
+        sps = spawns(effs)
+        waits = [e for e in effs if e.kind == 'wait']
+        out = []
+        ok = len(sps) == 1 and sps[0].fn.endswith('._run_dag') and len(calls(effs, '_create_task')) == 1
+        out.append(('each-candidate-sub-pipeline-is-started-exactly-once-as-a-registered-task|C10,C13', ok))
+        if not ok:
+            return out, None
+        sp = sps[0]
+        g, snap = dag_arg_view(it, sp)
+        kind = snap.getf(g, 'g_kind')
+        if kind != 'view':
+            gv = SubV(snap, g)
+            ms = self.mv(snap, a)
+            out += [('candidate-scope-ends-at-the-candidate|C10', gv.dest == cand),
+                    ('candidate-scope-starts-at-the-input-node|C10', gv.source == ms.input),
+                    ('candidate-scope-is-a-nested-one-of-scope|C10', z3.And(gv.is_oneof, gv.is_nested_oneof, z3.Not(gv.is_recurrent))),
+                    ('candidate-scope-ignores-case-edges|C09', snap.getf(g, 'g_fedge') is not None)]
+        ok = len(waits) == 1 and z3.is_true(z3.simplify(waits[0].cond == cand))
+        out.append(('waits-on-the-candidate-condition|C10,C02', ok))
+        if not ok:
+            return out, g
+        w = waits[0]
+        mw = self.mv(w.snap, a)
+        finished = z3.Or(has_error_formula(it, w.snap, a.self, g),
+                         z3.And(mw.S.R.vis(cand), z3.Not(PyV.is_rec(mw.S.R.get(cand, z3.BoolVal(False))))))
+        from pyvc.values import as_bool_term
+        if adequacy:
+            out.append(('does-not-block-on-a-finished-candidate (wake predicate adequate)|C02,C10',
+                        z3.Implies(finished, as_z3(as_bool_term(w.first)))))
+        out.append(('only-the-start-of-the-candidate-precedes-the-wait|C10', effs.index(sp) < effs.index(w)))
+        return out, g
+
+    @property
+    def loops(self):
+        outer = self
+
+        def inv(ctx):
+            m = MV(ctx.now(), ctx.a.self)
+            return [(f'rely-since-entry:{n_}', f_) for n_, f_ in outer.rely_named(ctx.it, MV(ctx.pre, ctx.a.self), m)]
+
+        def heap_havoc(it, env):
+            return outer.shared_locs(it)
+
+        def body_post(ctx):
+            # the candidate was judged failed and the loop moves on to the next one
+            it, a, st = ctx.it, ctx.a, ctx.st
+            cand = ctx.seq.at(ctx.i_before)
+            out, g = outer.candidate_clauses(it, ctx.pre, a, ctx.iter_effects, cand)
+            errs = calls(ctx.iter_effects, '__has_subgraph_error')
+            if g is not None and errs:
+                last = errs[-1]
+                ml = MV(last.pre, a.self)
+                h = T(a.node_id, st)
+                x = z3.Const('lx', PyV)
+                HEAD_OF = z3.Function('one_of_head_of_candidate', PyV, PyV)
+                loser = lambda v: z3.And(ml.G.edge(v, HEAD_OF(v)), ml.G.is_head(HEAD_OF(v)), HEAD_OF(v) != h,
+                                         ml.S.R.vis(HEAD_OF(v)),
+                                         z3.Not(PyV.is_exc(ml.S.R.get(HEAD_OF(v), z3.BoolVal(False)))))
+                out.append(('next-candidate-only-after-this-one-was-observed-failed|C10',
+                            has_error_formula(it, last.pre, a.self, g)))
+                out.append(('a-candidate-is-failed-only-by-errors-of-its-own-sub-pipeline|C10', z3.Exists([x], z3.And(
+                    node_in_dag(it, last.pre, g, x), PyV.is_exc(ml.S.R.get(x, z3.BoolVal(False))), z3.Not(loser(x))))))
+            out.append(('a-failed-candidate-leaves-the-head-without-result|C10', not calls(ctx.iter_effects, 'copy_node_result')
+                        and not calls(ctx.iter_effects, 'set_node_result')))
+            return out
+
+        return [LoopSpec(text="enumerate(self.dag.graph.nodes[node_id][NodeField.oneof_nodes])", heap_havoc=heap_havoc,
+                         inv=inv, body_post=body_post)]
+
+    def trace(self, it, pre, post, a, outcome, value, effects):
+        st = it.st
+        m0 = self.mv(pre, a)
+        h = T(a.node_id, st)
+        sub = SubV(pre, a.dag)
+        tail = tail_after_loop(effects)
+        copies = calls(tail, 'copy_node_result')
+        x = z3.Const('ox1', PyV)
+        out = []
+        if copies:
+            # success exit inside an iteration: the loop variables of that iteration
+            sps = spawns(tail)
+            cand = None
+            if sps:
+                g, snap = dag_arg_view(it, sps[0])
+                cand = SubV(snap, g).dest if snap.getf(g, 'g_kind') != 'view' else None
+            if cand is not None:
+                cl, g = self.candidate_clauses(it, pre, a, tail, cand, adequacy=False)
+                out += cl
+                c0 = copies[0]
+                errs = calls(tail, '__has_subgraph_error')
+                out.append(('winner-only-if-its-sub-pipeline-has-no-error|C10', bool(errs) and z3.Not(
+                    has_error_formula(it, errs[-1].pre, a.self, g))))
+                out.append(('head-gets-the-value-of-the-winning-candidate|C10,C01', z3.And(
+                    T(c0.a.from_node_id, st) == cand, T(c0.a.to_node_id, st) == h, z3.BoolVal(len(copies) == 1))))
+                out.append(('no-yield-between-the-verdict-and-the-copy|C10',
+                            not [e for e in tail[tail.index(errs[-1]):tail.index(c0)] if e.kind == 'yield'] if errs else False))
+            out += [('winner-releases-the-head-waiters|C02', notifies(it, effects, a.node_id)),
+                    ('winner-releases-the-consumers|C02', FA([x], z3.Implies(NOTIF(h, x), notifies(it, effects, x)), patterns=[NOTIF(h, x)])),
+                    ('winner-wakes-the-run|C02', notifies(it, effects, 'run')),
+                    ('later-candidates-are-never-started|C10', len(spawns(tail)) <= 1),
+                    ('returns-normally-on-success', outcome == 'return')]
+            return out
+        # all candidates failed (code after the loop)
+        sets = calls(tail, 'set_node_result')
+        out.append(('after-the-last-failure-no-candidate-is-started|C10', not spawns(tail)))
+        if outcome == 'return':
+            ok = len(sets) == 1
+            out.append(('nested-exhaustion-stores-the-no-result-error|C10', ok))
+            if ok:
+                v = T(sets[0].a.data, st)
+                out += [('stored-only-in-a-nested-one-of|C10', sub.is_nested_oneof),
+                        ('the-stored-value-is-OneOfDoesNotHaveResultError-for-this-head|C10,C05', z3.And(
+                            T(sets[0].a.node_id, st) == h, PyV.is_exc(v),
+                            PyV.ecls(v) == z3.IntVal(LATTICE.codes['OneOfDoesNotHaveResultError']))),
+                        ('nested-exhaustion-releases-the-head-waiters|C02', notifies(it, effects, a.node_id)),
+                        ('nested-exhaustion-releases-the-consumers|C02', FA([x], z3.Implies(NOTIF(h, x), notifies(it, effects, x)),
+                                                                            patterns=[NOTIF(h, x)]))]
+        else:
+            e = value.t
+            out += [('top-level-exhaustion-raises-OneOfDoesNotHaveResultError|C10,C05', z3.And(
+                z3.Not(sub.is_nested_oneof), PyV.ecls(e) == z3.IntVal(LATTICE.codes['OneOfDoesNotHaveResultError']))),
+                ('top-level-exhaustion-wakes-the-run-before-raising|C02', notifies(it, effects, 'run')),
+                ('top-level-exhaustion-stores-nothing|C10', not sets)]
         return out
